@@ -173,36 +173,23 @@ def classifier_clause(model, rep, funcs):
     if h is not None:
         s = norm_src(h.node)
         rep.instance("SLOT.pca", h.loc())
-        MH_ = Matcher(h)
-        ok = MH_.all_of(["if mask:\n    $i = self._image * self._mask\nelse:\n    $i = self._image", "return $i.reshape(self._n_image, -1)"])[0]
-        if not ok:
-            # every return is a one-row-per-image reshape; the masked product is returned exactly on the `mask` path
-            rets_ = [r for r in walk_no_nested(h.node) if isinstance(r, ast.Return) and r.value is not None]
-            forms_ = set()
-            good_ = bool(rets_)
-            for r in rets_:
-                m_ = MH_.find("$$x.reshape(self._n_image, -1)", within=r)
-                if not m_:
-                    good_ = False
-                    break
-                forms_.add(norm_src(MH_.expr(m_[0][1]["x"][1])))
-            ok = good_ and forms_ in ({"self._image * self._mask", "self._image"}, {"self._image * self._mask if mask else self._image"}) and \
-                (len(forms_) == 1 or MH_.has("if mask:\n    ...") or MH_.has("if not mask:\n    ..."))
-            if ok and len(forms_) == 2:
-                # which branch returns which: the product never sits in the mask-false branch, the plain stack never in the mask-true branch
-                for iff in [n for n in walk_no_nested(h.node) if isinstance(n, ast.If)]:
-                    t_ = iff.test
-                    neg = isinstance(t_, ast.UnaryOp) and isinstance(t_.op, ast.Not)
-                    if norm_src(t_.operand if neg else t_) != "mask":
-                        continue
-                    true_branch, false_branch = (iff.orelse, iff.body) if neg else (iff.body, iff.orelse)
-                    for r in rets_:
-                        form = norm_src(MH_.expr(MH_.find("$$x.reshape(self._n_image, -1)", within=r)[0][1]["x"][1]))
-                        in_true = any(x is r for st in true_branch for x in ast.walk(st))
-                        in_false = any(x is r for st in false_branch for x in ast.walk(st))
-                        if (form == "self._image" and in_true) or (form == "self._image * self._mask" and in_false):
-                            ok = False
-        rep.ob("SLOT", h.anchor, "flattening keeps one row per image (reshape(n_image, -1)) after the optional mask product", ok, "", node=h.node, fn=h,
+        # decided on symbolic terms with `mask` bound to True and to False: the result is X.reshape(<number of images>, -1) with X the masked product on the
+        # mask path and the plain stack otherwise (helpers, temporaries, if/else or conditional expression alike)
+        from ..domains.terms import T as _T, TermDomain as _TD, callee_name as _cn
+        from ..absint import Const as _C
+        SELF = _T("param", ("self",))
+        img, msk, nimg = _T("attr", (SELF, "_image")), _T("attr", (SELF, "_mask")), _T("attr", (SELF, "_n_image"))
+        ok, det_ = True, []
+        for flag in (True, False):
+            out = Interp(model, _TD(), depth=1).run(h, args={"mask": _C(flag)}, self_val=SELF)
+            want_x = [_T("op", ("Mult", img, msk)), _T("op", ("Mult", msk, img))] if flag else [img]
+            good = isinstance(out, _T) and _cn(out) == "reshape" and out.args[0].op == "attr" and out.args[0].args[0] in want_x and len(out.args[1]) == 2 and \
+                out.args[1][1] in (_T("const", ("-1",)), _T("un", ("USub", _T("const", ("1",))))) and \
+                out.args[1][0] in (nimg, _T("sub", (_T("attr", (out.args[0].args[0], "shape")), "0")), _T("sub", (_T("attr", (img, "shape")), "0")))
+            if not good:
+                ok = False if isinstance(out, _T) else None
+                det_.append(f"mask={flag}: returns {out!r}"[:200])
+        rep.ob("SLOT", h.anchor, "flattening keeps one row per image (reshape(n_image, -1)) after the optional mask product", ok, "; ".join(det_), node=h.node, fn=h,
                clause="classifier", stmt="def _image_flat")
     i = funcs.get(C + "__init__")
     if i is not None:
@@ -230,8 +217,19 @@ def labels_clause(model, rep, funcs):
     rep.ob("O", f.anchor, "the difference stack is built from this loader's tasks in molecule order, with each molecule's own quaternion", stack_ok, "", node=f.node,
            fn=f, clause="labels", stmt="classify stack")
     wc = [c for c in calls_in(f) if isinstance(c.func, ast.Attribute) and c.func.attr == "with_columns"]
-    ok = len(wc) == 1 and stack_ok and M.all_of(["$clf = PcaClassifier($stack, $model.mask, ...)", "$clf.run()", "$mole = self.molecules.copy()",
-                                                 "$mole.features = $mole.features.with_columns(pl.Series(label_name, $clf._labels))"], b)[0]
+    # the classifier is run (run() returns self, checked in the classifier clause, so `clf = PcaClassifier(...).run()` is the same), and its labels -
+    # the `_labels` field or the `labels` property that returns it - become one named column
+    ok = False
+    if len(wc) == 1 and stack_ok:
+        for mk in (["$clf = PcaClassifier($stack, $model.mask, ...)", "$clf.run()"], ["$clf = PcaClassifier($stack, $model.mask, ...).run()"]):
+            for lab in ("$clf._labels", "$clf.labels"):
+                b2 = dict(b)
+                if M.all_of(mk + ["$mole = self.molecules.copy()", f"$mole.features = $mole.features.with_columns(pl.Series(label_name, {lab}))"], b2)[0]:
+                    ok = True
+                    b.update(b2)
+                    break
+            if ok:
+                break
     rep.ob("O", f.anchor, "exactly one column (the labels, in stack order) is added to the feature table", ok, norm_src(wc[0])[:90] if wc else "", node=f.node, fn=f,
            clause="labels", stmt="classify labels")
     cp = []
